@@ -445,13 +445,23 @@ func checkC13(c *Ctx) {
 	prefixFn := c.fo(ru3, "wasp/sessions", "PrefixMountPoint")
 	if leave != nil && byPeer != nil && app != nil && prefixFn != nil {
 		c.R.Fn(c.fname(leave))
-		apps := core.CallsTo(leave, app)
+		apps := c.callsToDeep(leave, 2, app) // in the handler or a helper of it (publishWills(lost))
 		bad := ""
 		if len(apps) != 1 {
 			bad = fmt.Sprintf("%d Append calls in the peer-failure handler, want 1 (inside the loop over the lost sessions)", len(apps))
 		}
 		for _, a := range apps {
-			l := core.InnermostLoop(core.Loops(leave), a.Instr.Block())
+			// the place where the publish is made for one lost session: the Append itself, or — when the wills are
+			// first collected in a slice and appended to the log in a second loop — the append to that slice
+			made, publish := a.Instr, a.Arg(0)
+			if elem, at, ok := collectedElem(publish); ok {
+				if !everyIteration(a.Instr) {
+					bad = "the collected wills are not all appended to the log"
+					continue
+				}
+				made, publish = at, elem
+			}
+			l := core.InnermostLoop(core.Loops(made.Parent()), made.Block())
 			if l == nil {
 				bad = "the will is not appended once per lost session (no loop)"
 				continue
@@ -469,7 +479,7 @@ func checkC13(c *Ctx) {
 				})
 			}
 			// the publish appended: a literal built here, or by a constructor called here (willPublish(mountPoint, lwt))
-			built := c.builtObject(a.Arg(0))
+			built := c.builtObject(publish)
 			var topic ssa.Value
 			if built != nil {
 				topic = built.field("Topic")
@@ -497,7 +507,7 @@ func checkC13(c *Ctx) {
 			}
 			// guarded by LWT != nil
 			guarded := false
-			for _, cc := range controllingConds(a.Instr.Block(), nil) {
+			for _, cc := range controllingConds(made.Block(), nil) {
 				if readsField(cc.cond, "SessionMetadatas", "LWT") {
 					guarded = true
 				}
